@@ -223,6 +223,23 @@ func prepareDet(cfg *config) ([]string, []string, map[string]any, error) {
 		return nil, nil, nil, err
 	}
 	pool = append(pool, detPool{ID: "synthetic/huge-table", Path: tablePath, Heavy: true})
+	// grammars whose generation fails on purpose, after compilation, while semantic actions
+	// are rendered: derived from grammars of the tree, run only as history (never compared)
+	for _, b := range []struct{ id, rel, old, new string }{
+		{"broken/cc-json", "testing/cpp/json/json.tm", "{ $$ = 5; }", "{ LEFTOVER_BEFORE_FAILURE(); $$ = 5; $$ = $nosuchsymbol; }"},
+		{"broken/cc-json-flex", "testing/cpp/json_flex/json.tm", "{ $$ = 5; }", "{ LEFTOVER_BEFORE_FAILURE(); $$ = 5; $$ = $nosuchsymbol; }"},
+		{"broken/go-json", "parsers/json/json.tm", "{ val := $lparen; _ = val }", "{ val := $lparen; _ = val; _ = $nosuchsymbol }"},
+	} {
+		text, err := os.ReadFile(filepath.Join(cfg.repo, b.rel))
+		if err != nil || !strings.Contains(string(text), b.old) {
+			continue
+		}
+		bp := filepath.Join(cfg.scratch, "detsim-"+strings.ReplaceAll(b.id, "/", "-")+".tm")
+		if err := os.WriteFile(bp, []byte(strings.Replace(string(text), b.old, b.new, 1)), 0o644); err != nil {
+			continue
+		}
+		pool = append(pool, detPool{ID: b.id, Path: bp})
+	}
 	var sites []string
 	var wantProbes []string
 	for _, s := range rw.sites {
@@ -255,10 +272,16 @@ func prepareDet(cfg *config) ([]string, []string, map[string]any, error) {
 	if err != nil {
 		return nil, nil, nil, err
 	}
-	var usable, skipped []string
+	var usable, skipped, failing []string
 	var disagree []string
 	for _, p := range pool {
 		r := refs[p.ID]
+		if strings.HasPrefix(p.ID, "broken/") {
+			if r != nil && r.Err != "" {
+				failing = append(failing, p.ID+": "+firstLine(r.Err))
+			}
+			continue
+		}
 		if r == nil || r.Err != "" {
 			skipped = append(skipped, p.ID)
 			continue
@@ -280,13 +303,14 @@ func prepareDet(cfg *config) ([]string, []string, map[string]any, error) {
 		"grammars":               usable,
 		"composed_grammars":      composedDesc,
 		"grammars_skipped":       skipped,
+		"failing_grammars_used_as_history": failing,
 		"natural_vs_reference":   fmt.Sprintf("%d grammars: un-instrumented natural-order output compared with the instrumented all-ascending reference, %d differ", len(usable), len(disagree)),
 		"natural_order_disagree": disagree,
 	}
 	if len(rw.unowned) > 0 {
 		info["cannot_vouch"] = rw.unowned
 	}
-	engines["detsim"].probes = append(wantProbes, "generation-with-history", "committed-files-compared", "map-order-permuted", "clock-jump", "environment-varied", "generation-under-template-overlay", "twin-execution-compared")
+	engines["detsim"].probes = append(wantProbes, "generation-with-history", "committed-files-compared", "map-order-permuted", "clock-jump", "environment-varied", "generation-under-template-overlay", "twin-execution-compared", "failed-generation-in-history", "ctx:fired", "ctx:generation-failed-after-cancel")
 	// every run in a fresh child process: the only history a run sees is the one its tape describes
 	return []string{bin, "-isolate"}, []string{"ZZ_DETSIM_SETUP=" + setupPath, "ZZ_DETSIM_SCRATCH=" + cfg.scratch}, info, nil
 }
@@ -339,4 +363,14 @@ func grammarLang(path string) (lang, name string) {
 		return string(m[2]), string(m[1])
 	}
 	return "none", "none"
+}
+
+func firstLine(s string) string {
+	if i := strings.IndexByte(s, '\n'); i >= 0 {
+		s = s[:i]
+	}
+	if len(s) > 160 {
+		s = s[:160]
+	}
+	return s
 }
